@@ -27,3 +27,19 @@ Print Assumptions C05_remote_partners_shape.
 Theorem C05_remote_partners_NoDup : forall n p me, 0 < p -> NoDup (remote_partners_spec n p me).
 Proof. exact remote_partners_NoDup. Qed.
 Print Assumptions C05_remote_partners_NoDup.
+
+
+(* THE COVERAGE THEOREM.  For every n x p layout and every origin, the three-stage fan-out of async_bcast (origin ->
+   every rank of its node -> their remote partners -> the other ranks of each partner's node; the lists are the ones
+   the rank machine queues to in PBcast / PExec) runs the user function on every rank of the communicator exactly
+   once, and on nothing else. *)
+From Ygm Require Import BcastCover.
+Theorem C05_bcast_covers_every_rank_once : forall n p o x,
+  0 < n -> 0 < p -> 0 <= o < n * p -> 0 <= x < n * p -> zcount x (bcast_execs n p o) = 1%nat.
+Proof. exact bcast_covers_every_rank_once. Qed.
+Print Assumptions C05_bcast_covers_every_rank_once.
+
+Theorem C05_bcast_execs_in_range : forall n p o y,
+  0 < n -> 0 < p -> 0 <= o < n * p -> In y (bcast_execs n p o) -> 0 <= y < n * p.
+Proof. exact bcast_execs_in_range. Qed.
+Print Assumptions C05_bcast_execs_in_range.
